@@ -91,6 +91,7 @@ structure Desc where
   fp : Fp
   sections : List Section
   groups : List (Option Str) := []   -- values of the session-level `a=group` attributes, in order
+  sessSetup : Option Str := none     -- value of the first session-level `a=setup` that has one
 deriving DecidableEq, Repr
 
 structure Trx where
@@ -401,13 +402,19 @@ def roleOfSetup (v : Str) : Bool :=
   else if v = "actpass".toList then false
   else true
 
-/-- the `dtls_role` block: the role is derived once, from the first description that gets this far -/
+/-- the `dtls_role` block. Until the DTLS transport exists the role is derived from EVERY description that
+gets this far (round-3 `fix:`; before: only while unset): direct modes are always client; WebRTC reads the
+first media-level `a=setup`, else the session-level one (round-3 `fix:`). A description without any
+`a=setup` keeps the role. Once the transport exists the role stays. -/
 def deriveRole (pc : Pc) (d : Desc) : Option Bool :=
-  match pc.dtlsRole with
-  | some r => some r
-  | none =>
-    if pc.mode = .rtp || pc.mode = .srtp then some true
-    else (d.sections.findSome? (·.setup)).map roleOfSetup
+  if pc.dtlsRole.isSome && pc.dtlsStarted then pc.dtlsRole
+  else
+    let new :=
+      if pc.mode = .rtp || pc.mode = .srtp then some true
+      else (match d.sections.findSome? (fun s : Section => s.setup) with | some v => some v | none => d.sessSetup).map roleOfSetup
+    match new with
+    | some r => some r
+    | none => pc.dtlsRole
 
 /-- Rest of `set_remote_description` after the fingerprint has been cached: start the transport
 (SDES-SRTP: `start_direct`), apply the sections to the transceivers, store the description,
